@@ -340,4 +340,23 @@ theorem skel_validateToken_ok : skel_validateToken = ([
   "logger.Errorf",
   "return false"] : List String) := rfl
 
+theorem flags_bypass_ok : flags_bypass = ([
+  "StringSlice api-route = []string{}",
+  "Bool force-https = false",
+  "String real-client-ip-header = \"X-Real-IP\"",
+  "Bool reverse-proxy = false",
+  "Bool skip-auth-preflight = false",
+  "StringSlice skip-auth-regex = []string{}",
+  "StringSlice skip-auth-route = []string{}",
+  "Bool skip-auth-strip-headers = true",
+  "StringSlice trusted-ip = []string{}"] : List String) := rfl
+
+theorem flags_authz_ok : flags_authz = ([
+  "StringSlice allowed-group = []string{}",
+  "StringSlice allowed-role = []string{}",
+  "String authenticated-emails-file = \"\"",
+  "StringSlice email-domain = []string{}",
+  "String htpasswd-file = \"\"",
+  "StringSlice htpasswd-user-group = []string{}"] : List String) := rfl
+
 end O2P.Expect.C01
